@@ -31,6 +31,11 @@ inductive Ans where
   | pos                -- positive response
   | nrc (c : Nat)      -- negative response with code `c`
   | silent             -- no answer at all
+  /-- a reply the client REFUSES (`helpers.parse_pdu` raises `IllegalResponse`): a negative response whose code is not
+      in `UDSErrorCodes` (`7f 10 80`), a truncated positive reply (`50`), a reply of another service (`7f 22 31`,
+      `62 f1 86 03`), a positive reply echoing another sub-function.  The ECU may or may not have acted on the request
+      when it sends such a reply: `switched`. -/
+  | illegal (switched : Bool)
   deriving DecidableEq, Repr, Inhabited
 
 structure Ecu where
@@ -89,8 +94,21 @@ structure St where
   neg : List (Sess × List Sess × Nat) := []
   /-- `searched_sessions` -/
   searched : List Sess := []
-  /-- `sys.exit(1)` was reached -/
+  /-- `main` did not run to its end: `sys.exit(1)` was reached, or (with `crashed`) an exception left it -/
   aborted : Bool := false
+  /-- an `IllegalResponse` raised by `ecu_reset` left `main` (the reset block catches TimeoutError / ConnectionError only) -/
+  crashed : Bool := false
+
+/-- `parse_pdu` raised: the reply never becomes a response object -/
+def Ans.refused : Ans → Bool
+  | .illegal _ => true
+  | _ => false
+
+/-- the ECU is in the requested session afterwards -/
+def Ans.moves : Ans → Bool
+  | .pos => true
+  | .illegal sw => sw
+  | _ => false
 
 def NRC_SFNS : Nat := 0x12      -- subFunctionNotSupported
 def NRC_BUSY : Nat := 0x21      -- busyRepeatRequest
@@ -102,6 +120,7 @@ def repeats (c : Cfg) : Ans → Nat
   | .silent => c.maxRetry + 1
   | .nrc n => if n = NRC_BUSY then c.maxRetry + 1 else 1
   | .pos => 1
+  | .illegal _ => 1     -- `parse_pdu` raises out of the retry loop at once
 
 /-- one logical request: the ECU sees it `repeats` times in the same state -/
 def exchange (c : Cfg) (k : Kind) (top target : Nat) (a : Ans) (st : St) : St :=
@@ -113,6 +132,7 @@ def dscOnce (c : Cfg) (E : Ecu) (k : Kind) (top : Nat) (s : Sess) (st : St) : St
   let st := exchange c k top s a st
   match a with
   | .pos => ({ st with cur := s }, a)
+  | .illegal true => ({ st with cur := s }, a)   -- the ECU switched and sent a reply the client refuses
   | _ => (st, a)
 
 /-- the requests of one session hook (answered, reply ignored) -/
@@ -129,6 +149,7 @@ def dscHooked (c : Cfg) (E : Ecu) (k : Kind) (top : Nat) (s : Sess) (st : St) : 
   let st1 := exchange c k top s a (hookReqs top c.preHook st)
   match a with
   | .pos => (hookReqs top c.postHook { st1 with cur := s }, a)
+  | .illegal true => ({ st1 with cur := s }, a)   -- `IllegalResponse` leaves `set_session` before the post hook
   | _ => (st1, a)
 
 /-- how `set_session_with_hooks_handling` calls `ECU.set_session`: (skip_hooks, use_db) of the first (plain) and of the
@@ -142,8 +163,9 @@ def dsc (c : Cfg) (E : Ecu) (k : Kind) (top : Nat) (s : Sess) (st : St) : St × 
   let r1 := dscOnce c E k top s st
   if r1.2 = .nrc NRC_CNC ∧ c.hooks = true then
     let r2 := dscHooked c E k top s r1.1
-    -- a positive reply replaces the first one, a negative one is dropped, a missing one raises `MissingResponse`
-    if r2.2 = .pos then r2 else if r2.2 = .silent then r2 else (r2.1, r1.2)
+    -- a positive reply replaces the first one, a negative one is dropped, a missing one raises `MissingResponse`,
+    -- a refused one raises `IllegalResponse`
+    if r2.2 = .pos then r2 else if r2.2 = .silent then r2 else if r2.2.refused = true then r2 else (r2.1, r1.2)
   else r1
 
 /-- the session graph as `set_session_with_hooks_handling` sees it: an edge refused with conditionsNotCorrect
@@ -154,6 +176,7 @@ def edge (c : Cfg) (E : Ecu) (p u : Sess) : Ans :=
     match hookedAns c E p u with
     | .pos => .pos
     | .silent => .silent
+    | .illegal sw => .illegal sw
     | .nrc _ => .nrc NRC_CNC
   else E.g p u
 
@@ -172,12 +195,14 @@ def pingReqs (n tp : Nat) (st : St) : St :=
   { st with reqs := List.replicate n (⟨.ping, 0, st.cur, tp⟩ : Req) ++ st.reqs }
 
 /-- `ecu_reset(level)` + `wait_for_ecu` when the reset was accepted: the pings of the boot phase stay unanswered,
-    the next one is answered -/
+    the next one is answered.  A refused reply raises `IllegalResponse`, which the reset block does not catch
+    (`except (TimeoutError, ConnectionError)`): it leaves `main` - nothing is reported, nothing is written. -/
 def doReset (c : Cfg) (E : Ecu) (tp lvl : Nat) (st : St) : St :=
   let a := E.rst st.cur
   let st' := exchange c .reset tp lvl a st
   match a with
   | .pos => pingReqs (E.boot st.cur + 1) tp { st' with cur := 1 }
+  | .illegal sw => { st' with cur := if sw = true then 1 else st'.cur, crashed := true }
   | _ => st'
 
 def wantsReset (c : Cfg) : Option Nat :=
@@ -188,15 +213,18 @@ def wantsReset (c : Cfg) : Option Nat :=
 /-- the part of the loop body before the probe: optional ECUReset (which forces a recovery), then
     `_recover_stack` when `recover_stack` is set.  Result: state and "stack recovered / still valid". -/
 def prepare (c : Cfg) (E : Ecu) (stack : List Sess) (acc : St × Bool) : St × Bool :=
-  let a1 : St × Bool := match wantsReset c with
-    | some l => (doReset c E (top stack) l acc.1, true)
-    | none => acc
-  if a1.2 = true then recoverStack c E (top stack) stack a1.1 else (a1.1, true)
+  match wantsReset c with
+  | some l =>
+    -- a refused reply to the ECUReset: the exception of the reset block leaves `main`
+    if (E.rst acc.1.cur).refused = true then (doReset c E (top stack) l acc.1, false)
+    else recoverStack c E (top stack) stack (doReset c E (top stack) l acc.1)
+  | none => if acc.2 = true then recoverStack c E (top stack) stack acc.1 else (acc.1, true)
 
 /-- what the loop body does with the answer to the probe `10 s`; the `Bool` is the new `recover_stack` -/
 def classify (c : Cfg) (stack : List Sess) (s : Sess) (r : St × Ans) : St × Bool :=
   match r.2 with
   | .silent => (r.1, false)                       -- TimeoutError: `continue`
+  | .illegal _ => (r.1, true)                     -- `except Exception` ("Mamma mia"): nothing recorded, recover_stack = True
   | .nrc code =>
     if code = NRC_SFNS then (r.1, false)          -- not available: `continue`
     else ({ r.1 with neg := r.1.neg ++ [(s, stack, code)] }, false)
@@ -262,6 +290,9 @@ def negReported (st : St) : List (Sess × List Sess × Nat) :=
 
 /-- process exit status of the scan -/
 def exitCode (st : St) : Nat := if st.aborted then 1 else 0
+
+/-- how `main` ended: 0 = ran to its end, 1 = `sys.exit(1)`, 2 = an `IllegalResponse` left it -/
+def ending (st : St) : Nat := if st.crashed then 2 else exitCode st
 
 /-! ### specification -/
 
